@@ -109,7 +109,8 @@ def lateral_graph(chk, name, consts):
 
 
 def replay_lateral(chk, g, consts, rng, budget, shape2=False, deviate=None, report=True):
-    hdr = {"N": consts["N"], "initw": consts["InitW"], "initd": consts["InitD"], "shape2": shape2}
+    hdr = {"N": consts["N"], "initw": consts["InitW"], "initd": consts["InitD"], "shape2": shape2,
+           "inplace_init": bool(rng.random() < 0.5)}
     make = lambda: LateralImpl(hdr)
     init_key = graph.canon(make().project())
     if init_key not in g.states:
